@@ -71,6 +71,13 @@ func init() {
 		Thorough: 40 * time.Minute,
 		Run: func(w *fw.W) {
 			o, bound := c04Opts(w.Tier)
+			if w.Thorough() {
+				// the quick families first, then the deeper ones
+				qo, qb := c04Opts("quick")
+				ch := &scnCheck{ID: "C04", Judge: c04Judge, Nontrivial: anyFailed}
+				ch.runFamily(w, 2, scnFamily{qo, qb, nil})
+				ch.runFamily(w, 3, chainFamily("quick", []scn.Effect{scn.ENone, scn.ESstore}, func(o *scnOpts) { o.Gen.PreEffects = nil }))
+			}
 			defer func() {
 				// depth-3 chains over the reduced alphabet
 				ch := &scnCheck{ID: "C04", Judge: c04Judge, Nontrivial: anyFailed}
